@@ -177,6 +177,8 @@ pub fn c12_def() -> PropDef {
             "hit.cancelled_at_suspension_point.4",
             "hit.cancelled_at_suspension_point.7",
             "hit.sixteen_or_more_evaluations_abandoned_on_one_ruleset",
+            "hit.four_or_more_evaluations_failed_as_a_whole_on_one_ruleset",
+            "hit.four_or_more_evaluations_died_by_unwinding_on_one_ruleset",
         ],
     }
 }
